@@ -291,6 +291,11 @@ def _gen_case(rng, tier: str) -> dict:
             spec["hold"] = rng.choice(["arg", "text"])
     if rng.random() < 0.25:
         spec["debug"] = True
+    if rng.random() < 0.4:
+        # session 4: options that leave the framing alone — every ASCII-transparent encoding x every decoding error handler (with
+        # replace / ignore / surrogateescape / backslashreplace the "bad" payloads decode: the reference decoder uses the same codec),
+        # separator check of the producer off
+        sers.vary(rng, spec, ascii_only=True)
     sep = sers.separator(spec)
     path = rng.choice(["copy", "buffered"])
     frames = []
